@@ -2,11 +2,12 @@
 
 Monitor (FreshTwin): each property read on a real stream (or on its proxy, a linked stream, a phase view) at a random
 point of a mutation history is compared with the same property of a brand-new stream built from the reader's current
-(flows, phases, T, P, thermo).  A counter on the mixture-model methods tells memo hits from recomputations.
+(flows, phases, T, P) on an independent equal property package, AFTER the reader was read.  A counter on the mixture-model methods and on the
+model objects' __call__ tells memo hits from recomputations.
 """
 import numpy as np
 import thermosteam as tmo
-from vt.core import case_hash
+from vt.core import case_hash, exc_text, exc_key
 from vt.common import thermo_of, phase_ledger, stream_invariant
 
 PID = 'C14'
@@ -19,9 +20,18 @@ RULE = ('histories of 8-40 steps on a single- or multi-phase stream (5 chemicals
         'empty_negative_flows, mol= / mol[:]=, thermal_condition.T/P=, temporary(), temporary_phase(), vle, lle; multi-phase composition-only (swap inside a phase, swap between phases) and phase-only (collapse) changes; '
         'reverse links s.link_with(other, any flag subset), s.unlink() and s.reset_cache() with a live proxy; empty / fill (same composition, other total) / scale(0); '
         'edits through a phase view (imass, ivol, scale, F_mol=, empty); mixing with an energy balance. '
+        'Oracles (audit round): the reader is read first, the reference stream is built afterwards on an independent equal package (own Chemical and mixture-model objects); '
+        'a read without a value on the reference is not judged only for states the harness recognises itself (empty stream, none of the requested chemicals flows, T outside the generated 295-350 K) '
+        'and only for the documented exception type - there the reader must have no value either; otherwise raises-on-fresh-stream is reported; memo hits are told from recomputations by counting '
+        'the model objects\' __call__ as well (required per memoised model); a mutator may end as a refusal only where a solver ran; a proxy may stop sharing the data of s only after s.unlink() or a change '
+        'of the class / phase set of s; relative tolerance 1e-12 (residuals recorded). '
         'non-trivial = a read that follows >=1 mutation since the previous read of the same property by the same reader; distinct = hash of (history prefix, read)')
 MIN_NONTRIVIAL = {'quick': 1500, 'thorough': 50000}
-ASSUMPTIONS = ['the fresh twin is built through the public constructors from the observable state of the reader', 'reads that raise on the fresh twin as well are counted, not judged']
+ASSUMPTIONS = ['the fresh twin is built through the public constructors from the observable state of the reader, on a property package made from the same chemical IDs with cache=False (equal by construction, no shared objects)',
+               'reads without a value on the fresh twin are counted, not judged, only for: an empty reader (Cp, alpha, Pr, P_vapor, z_vol, get_normalized_*), get_normalized_*(IDs) when none of the IDs flows, '
+               'temperature-dependent properties at a temperature outside the generated 295-350 K (a T solver ended there); each with the exception type recorded for it',
+               'a proxy made by s.proxy() follows s until s.unlink() or a change of the class / phase set of s gives s a new flow container',
+               'the volumetric views keep a molar volume while |dT| < 1e-12 K (ThermalCondition.in_equilibrium): differences below 1e-12 relative are not staleness']
 IDS = ('Water', 'Ethanol', 'Methanol', 'Octane', 'Acetone')
 PERM = ('Octane', 'Water', 'Acetone', 'Ethanol', 'Methanol')
 PROPS = ['H', 'S', 'h', 'C', 'Cn', 'Cp', 'V', 'rho', 'mu', 'nu', 'kappa', 'alpha', 'Pr', 'sigma', 'epsilon', 'Hvap', 'MW', 'F_vol', 'z_mol', 'z_mass', 'F_mass']
@@ -34,44 +44,90 @@ MUTATORS = ['H=', 'S=', 'h=', 'Hnet=', 'H=0', 'copy_like', 'copy_flow', 'copy_th
             'set_total_flow', 'F_mass=', 'F_vol=', 'reset_flow', 'empty_negative_flows', 'mol=', 'mol[:]=', 'tc.T=', 'tc.P=', 'temporary', 'vle', 'lle']
 SOLVER_MUTATORS = ('H=', 'H=0', 'S=', 'h=', 'Hnet=', 'separate_out', 'isub', 'iadd', 'receive_vent', 'vle', 'lle', 'mixE', 'split_to')
 PROGRAMMING_ERRORS = (AttributeError, TypeError, NameError, KeyError, IndexError, AssertionError, UnboundLocalError)
+# where a solver runs: always (T from H / S, phase equilibrium, mixing / separating with the default energy balance); only with energy_balance=True; split_to never
+ALWAYS_SOLVER = ('H=', 'H=0', 'S=', 'h=', 'Hnet=', 'vle', 'lle', 'mixE', 'iadd', 'isub')
+EB_SOLVER = ('separate_out', 'receive_vent')
+MODEL_MUTATORS = ('receive_vent',)      # evaluate pure-component / activity models at the stream's temperature even without an energy balance
+# what a solver answers with when it does not return normally: RuntimeError (no convergence, InfeasibleRegion, a model's domain check at an iterate), an arithmetic error at an
+# iterate (FloatingPointError in the activity-coefficient / LLE routines), NoEquilibrium
+SOLVER_ERRORS = (RuntimeError, ArithmeticError, tmo.exceptions.NoEquilibrium)
+
+
+def solver_involved(m, st): return m in ALWAYS_SOLVER or (m in EB_SOLVER and bool(st.get('eb')))
 
 _calls = {'n': 0}
 _installed = False
 
+# the mixture model whose evaluation a property needs when it is NOT served from the stream's memo (one family per memoised model);
+# properties outside this table (MW, z_*, F_mass, Hf, LHV, HHV, phase fractions, get_normalized_*, P_vapor) never go through the memo
+MEMO_FAMILY = {'H': 'H', 'h': 'H', 'Hnet': 'H', 'S': 'S', 'C': 'Cn', 'Cn': 'Cn', 'Cp': 'Cn', 'V': 'V', 'rho': 'V', 'F_vol': 'V', 'get_concentration': 'V', 'mu': 'mu', 'nu': 'composite',
+               'kappa': 'kappa', 'alpha': 'composite', 'Pr': 'composite', 'sigma': 'sigma', 'epsilon': 'epsilon', 'Hvap': 'Hvap'}      # composite: several models (memo hit = none of them evaluated)
+FAMILIES = ('H', 'S', 'Cn', 'V', 'mu', 'kappa', 'sigma', 'epsilon', 'Hvap')
+
 
 def install_counter():
-    """wraps the mixture-model entry points so that a read with zero calls is known to be a memo hit."""
+    """counts every evaluation of a mixture model: the methods of the Mixture classes (H, S, x*) AND the model objects held in the instance slots of
+    IdealMixture (Cn, V, mu, kappa, sigma, epsilon, Hvap, _H, _S, ...: their classes' __call__).  A read of a memoised property of a non-empty stream during
+    which nothing was counted is known to have been served from the memo."""
     global _installed
     if _installed: return
     from thermosteam.mixture import mixture as mx
+    from thermosteam.mixture import ideal_mixture_model as imm
+    def make(f):
+        def g(*a, **k):
+            _calls['n'] += 1
+            return f(*a, **k)
+        g.__name__ = getattr(f, '__name__', 'g')
+        return g
     classes = [getattr(mx, n) for n in dir(mx) if isinstance(getattr(mx, n), type) and n.endswith('Mixture')]
     names = ['H', 'S', 'Cn', 'V', 'mu', 'kappa', 'sigma', 'epsilon', 'Hvap', 'xH', 'xS', 'xCn', 'xV', 'xmu', 'xkappa']
     for cls in classes:
         for n in names:
             f = cls.__dict__.get(n)
             if f is None or not callable(f): continue
-            def make(f):
-                def g(*a, **k):
-                    _calls['n'] += 1
-                    return f(*a, **k)
-                g.__name__ = getattr(f, '__name__', 'g')
-                return g
             setattr(cls, n, make(f))
+    # added: the model classes (instance slots of IdealMixture are model OBJECTS, invisible to the wrapping above)
+    for n in dir(imm):
+        cls = getattr(imm, n)
+        if isinstance(cls, type) and cls.__module__ == imm.__name__ and '__call__' in cls.__dict__:
+            setattr(cls, '__call__', make(cls.__dict__['__call__']))
     _installed = True
+
+
+def counter_selftest():
+    """the first read of every memoised model on a brand-new non-empty stream must be seen by the counter (otherwise 'memo-hit' proves nothing).
+    Raises inside the harness (-> inconclusive) when the counter is blind."""
+    install_counter()
+    th = thermo_of(IDS)
+    blind = []
+    for p in FAMILIES + ('C', 'rho', 'Cp'):
+        s = tmo.Stream(None, phase='l', T=311.3, P=101325., thermo=th); s.imol['Water'] = 3.; s.imol['Ethanol'] = 1.25
+        c0 = _calls['n']; getattr(s, p)
+        if _calls['n'] == c0: blind.append(p)
+        m = tmo.MultiStream(None, phases=('g', 'l'), T=311.3, P=101325., thermo=th); m.imol['l', 'Water'] = 3.; m.imol['g', 'Ethanol'] = 1.25
+        c0 = _calls['n']; getattr(m, p)
+        if _calls['n'] == c0: blind.append('multi:' + p)
+    if blind: raise RuntimeError(f'harness: the model-call counter does not see the first (recomputing) read of {blind}')
 
 
 def required(tier):
     return ['fresh', 'memo-hit', 'recomputed', 'reader:proxy', 'reader:linked', 'reader:view', 'reader:self', 'multi-phase', 'set-back',
             # added
             'reader:fproxy', 'no-proxy-case', 'late:package', 'late:phases', 'package:other-values', 'read:derived', 'read:multi-derived', 'read:empty-state', 'mcomp:swap-row', 'mcomp:swap-phase', 'collapse', 'link-rev', 'self-unlink',
-            'reset_cache', 'empty', 'fill', 'scale0', 'view-mut', 'mixE', 'restore'] + ['mut:' + m for m in MUTATORS]
+            'reset_cache', 'empty', 'fill', 'scale0', 'view-mut', 'mixE', 'restore'] + ['mut:' + m for m in MUTATORS] + [
+            # added (oracle audit): every property judged at least once, a memo-served and a recomputed read judged per memoised model and per reader kind,
+            # the twin built on the independent package, proxy reads judged after a mutation, documented-undefined reads seen (the refusal is reachable)
+            ] + ['read:' + p for p in sorted(set(PROPS + PROPS2 + MULTI_PROPS + MULTI_PROPS2))] + ['memo-hit:' + f for f in FAMILIES] + ['recomputed:' + f for f in FAMILIES] + [
+            'memo-hit:multi', 'memo-hit:single', 'memo-hit:view', 'memo-hit:proxy', 'memo-hit:linked', 'twin:independent-package', 'reader:proxy:after-mutation', 'proxy', 'inside-temporary',
+            'undefined:empty', 'undefined:no-flow-of-requested-chemicals', 'counter-selftest']
 
 
 _TH3 = {}
 
 
-def twin_of(s):
-    th = s._thermo
+def twin_of(s, thermo=None):
+    """a brand-new stream with the observable state of s (phases, T, P, flows); on the property package of s unless another (equal) package is given."""
+    th = thermo if thermo is not None else s._thermo
     if isinstance(s, tmo.MultiStream):
         t = tmo.MultiStream(None, phases=tuple(s.phases), T=s.T, P=s.P, thermo=th)
         for p, row in zip(s.phases, s.imol.data.rows):
@@ -80,6 +136,81 @@ def twin_of(s):
         t = tmo.Stream(None, phase=s.phase, T=s.T, P=s.P, thermo=th)
         for j, v in s.imol.data.dct.items(): t.imol.data.dct[j] = v
     return t
+
+
+_IND = []      # (package of the streams under test, equal package built from OTHER Chemical / mixture objects)
+
+
+def make_packages():
+    """the three packages of the workload and, made once per process, an independent equal of each: own Chemical objects (cache=False), own mixture models,
+    so that no mutable object (and no memo held at package / chemical / model level) is shared between the stream under test and its reference."""
+    th = thermo_of(IDS); th2 = thermo_of(PERM)
+    th3 = _TH3.get('th3')
+    if th3 is None:
+        th3 = _TH3['th3'] = tmo.Thermo(th.chemicals, mixture=tmo.mixture.IdealMixture.from_chemicals(th.chemicals, include_excess_energies=True))
+    if not _IND:
+        ich = tmo.Chemicals(list(IDS), cache=False)
+        ith = tmo.Thermo(ich)
+        ith2 = tmo.Thermo(tmo.Chemicals([getattr(ith.chemicals, i) for i in PERM]))
+        ith3 = tmo.Thermo(ith.chemicals, mixture=tmo.mixture.IdealMixture.from_chemicals(ith.chemicals, include_excess_energies=True))
+        for a, b in ((th, ith), (th2, ith2), (th3, ith3)):
+            assert a.chemicals.IDs == b.chemicals.IDs and a.mixture is not b.mixture and all(x is not y for x, y in zip(a.chemicals.tuple, b.chemicals.tuple)), 'harness: independent package is not independent'
+            _IND.append((a, b))
+    return th, th2, th3
+
+
+def fresh_twin(reader, rec):
+    """the reference stream of a judged read: built AFTER the read, on the independent equal of the reader's package."""
+    for a, b in _IND:
+        if a is reader._thermo:
+            rec.hit('twin:independent-package')
+            return twin_of(reader, b)
+    rec.hit('twin:shared-package')      # a package the workload did not make (never seen): the reference then shares the reader's package
+    return twin_of(reader)
+
+
+def rows_of(reader):
+    data = reader.imol.data
+    return [r.dct for r in data.rows] if hasattr(data, 'rows') else [data.dct]
+
+
+# reads that have NO value for a state the harness can recognise from the observable state alone, with the exception type the library answers with.
+#   empty:  no flow at all - Cp, alpha, Pr divide None (the per-mol value of an empty stream) by a float: TypeError; P_vapor takes .sum() of the float 0.: AttributeError;
+#           z_vol and MultiStream.get_normalized_* divide 0 by 0: FloatingPointError; Stream.get_normalized_* raise RuntimeError('... is empty') (deliberate)
+#   no-flow-of-requested-chemicals: get_normalized_*(IDs) when none of the IDs flows (same 0/0)
+#   T-outside-model-range: a temperature-dependent property outside the generated temperatures (a T solver ended there, down to < 1 K): RuntimeError of a pure-component
+#           model's domain check, or the arithmetic error of an overflowing correlation
+EMPTY_UNDEFINED = {'Cp': (TypeError,), 'alpha': (TypeError,), 'Pr': (TypeError,), 'P_vapor': (AttributeError,), 'z_vol': (FloatingPointError,),
+                   'get_normalized_mol': (RuntimeError, FloatingPointError), 'get_normalized_mass': (RuntimeError, FloatingPointError), 'get_normalized_vol': (RuntimeError, FloatingPointError)}
+T_INDEPENDENT = ('MW', 'z_mol', 'z_mass', 'F_mass', 'Hf', 'LHV', 'HHV', 'vapor_fraction', 'liquid_fraction', 'solid_fraction', 'get_normalized_mol', 'get_normalized_mass')
+T_MODEL_RANGE = (295., 350.)      # the temperatures the generator itself sets: every model of the five chemicals has a value there (all three pressures, both phases)
+DOMAIN_MESSAGES = ('Failed to evaluate', 'computed an invalid value', 'is not valid at T=')
+
+
+def undefined_class(reader, p):
+    """the harness' own prediction (from flows, T only) that p has no value in the reader's state: (class, documented exception types, message parts) or None."""
+    rows = rows_of(reader)
+    if not any(rows):
+        if p in EMPTY_UNDEFINED: return 'empty', EMPTY_UNDEFINED[p], ('is empty',) if RuntimeError in EMPTY_UNDEFINED[p] else None
+        return None
+    if p.startswith('get_normalized_'):
+        idx = [reader.chemicals.IDs.index(i) for i in CALL_IDS]
+        if not any(j in r for r in rows for j in idx): return 'no-flow-of-requested-chemicals', EMPTY_UNDEFINED[p], ('is empty',)
+    if p not in T_INDEPENDENT and not (T_MODEL_RANGE[0] <= reader.T <= T_MODEL_RANGE[1]): return 'T-outside-model-range', (RuntimeError, ArithmeticError), DOMAIN_MESSAGES
+    return None
+
+
+def warranted(und, err):
+    """the refusal is granted only for the documented exception type (and, for RuntimeError, the documented message) of a state the harness recognised."""
+    if und is None or not isinstance(err, und[1]): return False
+    if type(err) is RuntimeError and und[2] is not None: return any(m in str(err) for m in und[2])
+    return True
+
+
+def has_value(v):
+    if v is None: return False
+    try: return not bool(np.any(np.isnan(np.asarray(v, float))))
+    except Exception: return True
 
 
 def gen_case(rng):
@@ -182,11 +313,75 @@ def value_of(s, p):
     return v
 
 
-def equal(a, b):
+# resolution: the values are bit-identical except where the library's volumetric views (ivol -> z_vol, get_normalized_vol) keep a molar volume for |dT| < 1e-12 K, |dP| < 1e-12 Pa
+# (ThermalCondition.in_equilibrium): relative effect <= ~3e-15; worst residual recorded over 40 000 histories 1.5e-15 -> 1e-12 leaves > 600x (was 1e-10)
+RTOL = 1e-12
+
+
+def equal(a, b, rtol=None):
+    rtol = RTOL if rtol is None else rtol
     if a is None or b is None: return a is None and b is None
     a = np.asarray(a, float); b = np.asarray(b, float)
     if a.shape != b.shape: return False
-    return bool(np.all(np.abs(a - b) <= 1e-10 * np.maximum(np.abs(a), np.abs(b)) + 1e-300))
+    return bool(np.all(np.abs(a - b) <= rtol * np.maximum(np.abs(a), np.abs(b)) + 1e-300))
+
+
+def residual(a, b):
+    """largest relative difference (recorded as the worst residual of the clause); None when not comparable."""
+    if a is None or b is None: return None
+    try:
+        a = np.asarray(a, float); b = np.asarray(b, float)
+        if a.shape != b.shape or not a.size: return None
+        m = np.maximum(np.abs(a), np.abs(b))
+        d = np.where(m > 0, np.abs(a - b) / np.where(m > 0, m, 1.), 0.)
+        return float(np.max(d))
+    except Exception:
+        return None
+
+
+def kind_of(reader): return 'multi' if isinstance(reader, tmo.MultiStream) else 'single'
+
+
+def judge_read(rec, reader, p, where, key, k=None, detail_state=None):
+    """one judged read: the reader is read FIRST, the reference (brand-new stream, independent package) is built and read afterwards.
+    Returns (status, ncalls): status 'judged' | 'refused' (documented no-value state) | 'no-value' (reported) | 'stop' (the reader alone raised: reported, the history ends)."""
+    c0 = _calls['n']
+    try:
+        got = value_of(reader, p); gerr = None
+    except Exception as e:
+        got = None; gerr = e
+    ncalls = _calls['n'] - c0
+    und = undefined_class(reader, p)
+    kind = kind_of(reader)
+    try:
+        tw = fresh_twin(reader, rec)
+        exp = value_of(tw, p); terr = None
+    except Exception as e:
+        exp = None; terr = e
+    if terr is not None or (exp is not None and not has_value(exp)):
+        # no value on a brand-new stream: not judged ONLY when the harness itself recognises the state as one without a value for p and the answer is the documented one
+        how = type(terr).__name__ if terr is not None else 'nan'
+        ok = warranted(und, terr) if terr is not None else und is not None
+        if not ok:
+            cls = und[0] if und is not None else 'state-with-a-value'
+            rec.check(False, 'fresh', f'raises-on-fresh-stream/{p}/{kind}/{cls}/{how}',
+                      f'{where}: {p} has no value ({how}: {str(terr)[:120] if terr is not None else exp}) on a brand-new {kind} stream in a state for which the harness expects one ({detail_state}); reader: {gerr if gerr is not None else got!r}',
+                      detail={'state': detail_state, 'traceback': exc_text(terr) if terr is not None else None})
+            return 'no-value', ncalls
+        rec.hit('undefined:' + und[0]); rec.hit('refused:' + p)
+        # the reader must not produce a value where a brand-new stream has none (a value could only come from an earlier state)
+        rec.check(gerr is not None or not has_value(got), 'fresh', f'value-where-fresh-stream-has-none/{p}/{kind}/{und[0]}',
+                  f'{where}: {p} = {got!r} although a brand-new stream in the same state has no value ({how}) ({detail_state})')
+        rec.refuse(f'property {p} undefined for this state ({und[0]}: {how})')
+        return 'refused', ncalls
+    if gerr is not None:
+        rec.exception('fresh', gerr, what=f'{where}: reading {p} raised {type(gerr).__name__}: {str(gerr)[:120]} but a fresh twin returns {exp}')
+        return 'stop', ncalls
+    rec.check(equal(got, exp), 'fresh', key,
+              f'{where}: {p} = {np.asarray(got).tolist() if got is not None else None} but a freshly built stream with the same state gives {np.asarray(exp).tolist() if exp is not None else None} ({detail_state})',
+              detail={'state': detail_state, 'memo_hit': ncalls == 0 and p in MEMO_FAMILY and any(rows_of(reader))}, residual=residual(got, exp))
+    rec.hit('read:' + p)
+    return 'judged', ncalls
 
 
 def perturbed_twin(s, st):
@@ -267,19 +462,19 @@ def apply_mutator(s, st, rec):
     elif m == 'tc.P=': s.thermal_condition.P = st['P']
     elif m == 'temporary':
         with s.temporary(T=st['T'], P=st['P']):
-            # a read inside the context is judged like any other read
-            tw = twin_of(s)
+            # a read inside the context is judged like any other read (reader first, reference afterwards; a brand-new stream that raises here is reported: H, V, C have
+            # a value (or None / 0 when empty) in every state)
             for p in ('H', 'V' if not multi else 'C'):
-                try: exp = value_of(tw, p)
-                except Exception: continue
-                got = value_of(s, p)
-                rec.check(equal(got, exp), 'fresh', f'self/inside-temporary/{"multi" if multi else "single"}', f'inside temporary(T={st["T"]}, P={st["P"]}): {p} = {got} but a freshly built stream gives {exp}')
+                status, _ = judge_read(rec, s, p, f'inside temporary(T={st["T"]}, P={st["P"]})', f'self/inside-temporary/{"multi" if multi else "single"}', detail_state={'T': s.T, 'P': s.P})
+                if status == 'judged': rec.hit('inside-temporary')
+                if status == 'stop': break
     elif m == 'temporary_phase':
         if multi: return False
         ph2 = 'g' if s.phase == 'l' else 'l'
         with s.temporary_phase(ph2):
-            tw = twin_of(s)
-            exp = value_of(tw, 'H'); got = value_of(s, 'H')
+            got = value_of(s, 'H')
+            tw = fresh_twin(s, rec)
+            exp = value_of(tw, 'H')
             rec.check(s.phase == ph2 and equal(got, exp), 'fresh', 'self/inside-temporary_phase/single', f'inside temporary_phase({ph2!r}): phase {s.phase!r}, H = {got} but a freshly built stream gives {exp}')
     elif m == 'vle':
         if not s.F_mol: return False
@@ -295,12 +490,9 @@ def apply_mutator(s, st, rec):
 def run_case(case, rec):
     install_counter()
     rec.begin_case(case)
-    th = thermo_of(IDS); th2 = thermo_of(PERM)
-    # a third package over the same chemicals whose mixture model gives OTHER values for the same state (pure-component excess energies included):
+    # th3: a third package over the same chemicals whose mixture model gives OTHER values for the same state (pure-component excess energies included):
     # a memo that survives the package change is visible only if the new package disagrees with the old one
-    th3 = _TH3.get('th3')
-    if th3 is None:
-        th3 = _TH3['th3'] = tmo.Thermo(th.chemicals, mixture=tmo.mixture.IdealMixture.from_chemicals(th.chemicals, include_excess_energies=True))
+    th, th2, th3 = make_packages()
     packages = [th, th2, th3]
     s = build(case['start'], th)
     proxy = None; linked = None
@@ -308,9 +500,11 @@ def run_case(case, rec):
     if case['start']['proxy_at'] is None: rec.hit('no-proxy-case')
     dirty = {}     # (reader, prop) -> mutated since last read
     mutated_since = 0
+    proxy_mutations = 0      # mutations applied while the current proxy was alive (a proxy read after >= 1 of them is required)
     def mark():
-        nonlocal mutated_since
+        nonlocal mutated_since, proxy_mutations
         mutated_since += 1
+        if proxy is not None: proxy_mutations += 1
         for k in dirty: dirty[k] = True
     Thist = []
     for k, st in enumerate(case['steps']):
@@ -318,7 +512,7 @@ def run_case(case, rec):
         multi = isinstance(s, tmo.MultiStream)
         if k == case['start']['proxy_at']:
             try:
-                proxy = s.proxy()
+                proxy = s.proxy(); proxy_mutations = 0
             except Exception as e:
                 rec.exception('proxy', e, what=f'proxy() raised {type(e).__name__}: {e}'); proxy = None
         try:
@@ -336,29 +530,19 @@ def run_case(case, rec):
                     reader = s[ph]
                     if p not in PROPS and p not in PROPS2: p = 'H'
                 if who == 'fproxy' and isinstance(reader, tmo.MultiStream) and p not in MULTI_PROPS and p not in MULTI_PROPS2: p = 'H'
-                try:
-                    tw = twin_of(reader)
-                    exp = value_of(tw, p); terr = None
-                except Exception as e:
-                    exp = None; terr = e
-                c0 = _calls['n']
-                try:
-                    got = value_of(reader, p); gerr = None
-                except Exception as e:
-                    got = None; gerr = e
-                ncalls = _calls['n'] - c0
-                if terr is not None:
-                    rec.refuse(f'property {p} undefined for this state ({type(terr).__name__})'); continue
-                if gerr is not None:
-                    rec.exception('fresh', gerr, what=f'step {k}: reading {p} on {who} raised {type(gerr).__name__}: {str(gerr)[:120]} but a fresh twin returns {exp}'); return
-                if exp is not None and np.any(np.isnan(np.asarray(exp, float))):
-                    rec.refuse(f'property {p} undefined (nan) on the fresh twin'); continue
                 state = {'reader': who, 'prop': p, 'T': reader.T, 'P': reader.P, 'phases': tuple(reader.phases) if isinstance(reader, tmo.MultiStream) else reader.phase}
-                rec.check(equal(got, exp), 'fresh', f'{who}/{"proxy-alive" if proxy is not None else "no-proxy"}/{"multi" if isinstance(reader, tmo.MultiStream) else "single"}',
-                          f'step {k}: {who}.{p} = {np.asarray(got).tolist() if got is not None else None} but a freshly built stream with the same state gives {np.asarray(exp).tolist() if exp is not None else None} ({state})',
-                          detail={'state': state, 'memo_hit': ncalls == 0})
+                status, ncalls = judge_read(rec, reader, p, f'step {k}: {who}', f'{who}/{"proxy-alive" if proxy is not None else "no-proxy"}/{"multi" if isinstance(reader, tmo.MultiStream) else "single"}', detail_state=state)
+                if status == 'stop': return
+                if status != 'judged': continue
                 rec.hit('reader:' + who)
-                rec.hit('memo-hit' if ncalls == 0 else 'recomputed')
+                if who == 'proxy' and proxy_mutations: rec.hit('reader:proxy:after-mutation')
+                # memo hit / recomputation is decided for memoised properties of non-empty readers only: nothing else can be served from the memo
+                fam = MEMO_FAMILY.get(p)
+                if fam is None or not any(rows_of(reader)): rec.hit('not-memoised-read')
+                elif ncalls == 0:
+                    rec.hit('memo-hit'); rec.hit('memo-hit:' + fam); rec.hit('memo-hit:' + kind_of(reader)); rec.hit('memo-hit:' + who)
+                else:
+                    rec.hit('recomputed'); rec.hit('recomputed:' + fam)
                 if isinstance(reader, tmo.MultiStream): rec.hit('multi-phase')
                 if p in PROPS2: rec.hit('read:derived')
                 if isinstance(reader, tmo.MultiStream) and p in MULTI_PROPS2: rec.hit('read:multi-derived')
@@ -368,6 +552,7 @@ def run_case(case, rec):
                 dirty[key] = False
                 continue
             # ---- mutations
+            sig0 = (type(s), tuple(s.phases)); rev0 = rev
             target = s
             via = st.get('via')
             if via == 'proxy' and proxy is not None and type(proxy) is type(s): target = proxy
@@ -444,11 +629,18 @@ def run_case(case, rec):
                 m = st['m']
                 if m in ('vle', 'lle', 'copy_like', 'reset_flow', 'temporary', 'receive_vent', 'split_to', 'iadd') and linked is not None: continue    # may change the class / phase set of one side of a link
                 if m in ('vle', 'lle', 'copy_like', 'reset_flow', 'temporary', 'receive_vent', 'split_to', 'iadd', 'copy_flow', 'separate_out', 'isub'): fproxy = None
+                T0 = s.T
                 try:
                     if not apply_mutator(s, st, rec): continue
                 except PROGRAMMING_ERRORS: raise
                 except Exception as e:
-                    if m in SOLVER_MUTATORS: rec.refuse(f'{m} did not return normally ({type(e).__name__})')
+                    # a refusal only where a solver really ran (T from H / S, phase equilibrium) and only for the exception types a solver answers with; everything else
+                    # (a split, an isothermal separation, ...) has no reason to raise: reported under clause 'mutation'
+                    if solver_involved(m, st) and isinstance(e, SOLVER_ERRORS): rec.refuse(f'{m} did not return normally ({exc_key(e)})'); rec.hit('solver-refusal:' + m)
+                    elif (m in MODEL_MUTATORS and not (T_MODEL_RANGE[0] <= T0 <= T_MODEL_RANGE[1])
+                          and (isinstance(e, ArithmeticError) or (type(e) is RuntimeError and any(msg in str(e) for msg in DOMAIN_MESSAGES)))):
+                        # no solver, but saturation pressures / activity coefficients are evaluated at the stream's temperature, which an earlier T solver left outside the generated range
+                        rec.refuse(f'{m} at a temperature outside the generated range: model domain ({exc_key(e)})'); rec.hit('model-domain-refusal:' + m)
                     else: raise
                 else:
                     rec.hit('mut:' + m)
@@ -524,7 +716,7 @@ def run_case(case, rec):
                 fproxy = None
                 try: s.mix_from([s, o], energy_balance=True)
                 except PROGRAMMING_ERRORS: raise
-                except Exception as e: rec.refuse(f'mixE did not return normally ({type(e).__name__})')
+                except SOLVER_ERRORS as e: rec.refuse(f'mixE did not return normally ({exc_key(e)})'); rec.hit('solver-refusal:mixE')
                 rec.hit('mixE')
             elif t == 'snapshot':
                 snap = s.get_data()
@@ -534,9 +726,20 @@ def run_case(case, rec):
                 fproxy = None
                 s.set_data(snap)
                 rec.hit('restore')
-            if proxy is not None and proxy._imol is not s._imol:
-                # the added steps can replace the indexer of s (unlink, phase-set change, collapse, restore): the old proxy is then a separate stream, no longer a proxy of s
-                proxy = None; rec.hit('proxy-detached')
+            if proxy is not None:
+                # the added steps can replace the indexer of s (unlink, phase-set change, collapse, restore): the old proxy is then a separate stream, no longer a proxy of s.
+                # Only the step kinds that are documented to give s a new flow container may do that; after any other mutation the proxy must still share the data of s
+                # (otherwise every later read 'through the proxy' silently reads a stream that no longer follows s, and the mutations made through it never reach s)
+                kind = t + (':' + st['m'] if t == 'mut' else '') + ('/multi' if multi else '/single')
+                detached = proxy._imol is not s._imol
+                # documented ways for s to get a new flow container: s.unlink() (own copies), and a change of the class / phase set of s (phases=, phase= on a
+                # multi-phase stream, vle / lle / copy_like / set_data / an energy-balance fallback that re-cast the stream) - the harness sees the latter in s itself
+                may = t == 'self-unlink' or (t == 'unlink' and rev0) or sig0 != (type(s), tuple(s.phases))
+                if detached: rec.hit('proxy-detached'); rec.hit('proxy-detached:' + kind + ('' if may else ':undocumented'))
+                rec.check(not detached or may, 'proxy', f'detached-by/{kind}',
+                          f'step {k} {st}: after this mutation (class and phase set of s unchanged: {sig0[0].__name__} {sig0[1]}) the proxy made by s.proxy() no longer shares the flow data of s: '
+                          f'reads through the proxy do not reflect the state of s any more')
+                if detached: proxy = None
             mark()
         except Exception as e:
             rec.exception('mutation', e, what=f'step {k} {st} raised {type(e).__name__}: {str(e)[:150]}'); return
@@ -550,6 +753,10 @@ def replay(case, rec):
 
 def run(rec, rng, tier, shard, nshards):
     n = 1000 if tier == 'quick' else 12000
+    try:
+        counter_selftest(); rec.hit('counter-selftest')
+    except Exception as e:
+        rec.exception('harness', e, what=f'harness error: {type(e).__name__}: {e}')
     for i in range(n):
         case = gen_case(rng)
         try:
@@ -559,3 +766,23 @@ def run(rec, rng, tier, shard, nshards):
         if i % 101 == 0: rec.sample({'start': case['start'], 'steps': case['steps'][:8], 'n_steps': len(case['steps'])})
     tot = rec.reach.get('memo-hit', 0) + rec.reach.get('recomputed', 0)
     rec.notes['memo_hit_fraction'] = round(rec.reach.get('memo-hit', 0) / tot, 3) if tot else 0.0
+    refusal_rate_guard(rec)
+
+
+def refusal_rate_guard(rec):
+    """the share of reads of a property that end as 'no value for this state' is fixed by the generator (empty states, requested chemicals absent, a solver that left the
+    temperature range): far more than recorded means that the states are not the intended ones and the judged reads no longer cover the property -> the run decides nothing."""
+    rates = {}
+    for p in sorted(set(PROPS + PROPS2 + MULTI_PROPS + MULTI_PROPS2)):
+        r = rec.reach.get('refused:' + p, 0); j = rec.reach.get('read:' + p, 0)
+        if r + j: rates[p] = round(r / (r + j), 4)
+        if r >= 8 and r + j >= 60 and r / (r + j) > MAX_REFUSAL_RATE.get(p, 0.04):
+            rec.harness_errors.append({'clause': 'refusal-rate', 'error': f'{r} of {r + j} reads of {p} had no value for their state (rate {r / (r + j):.3f}, bound {MAX_REFUSAL_RATE.get(p, 0.04)})',
+                                       'traceback': 'refusal_rate_guard', 'case': None})
+    rec.notes['refusal_rate_per_property'] = rates
+
+
+# per shard; recorded rates over 4 x 10 000 histories: Cp .067-.074, alpha .059-.076, Pr .066-.075, P_vapor .056-.076, z_vol .059-.071, get_normalized_* .096-.114, mu / nu <= .0044, kappa <= .0024,
+# every other property 0; per shard of 1000 histories (16 shards): get_normalized_* <= .145, P_vapor <= .126, z_vol <= .103, Cp / alpha / Pr <= .099, mu <= .014, nu <= .011, kappa <= .006
+# (bounds about 2-3x the per-shard maximum; default 0.04; at least 8 refused reads)
+MAX_REFUSAL_RATE = {'Cp': 0.22, 'alpha': 0.22, 'Pr': 0.22, 'P_vapor': 0.25, 'z_vol': 0.2, 'get_normalized_mol': 0.33, 'get_normalized_mass': 0.33, 'get_normalized_vol': 0.33}
